@@ -181,12 +181,14 @@ def scenario(r, base, marks):
     return plist, tps
 
 
-def run_scenario(wd, base, line_marks, plist, tps, mod, fault=None):
+def run_scenario(wd, base, line_marks, plist, tps, mod, fault=None, cancelled=False):
     plugins.reset()
     insts = [plugins.make(nm, ks, order=o)() for nm, ks, o in plist]
     insts.sort(key=lambda p: p.order())
     if fault is not None:
         plugins.FAULTS[(fault[0], fault[1])] = {fault[2]}
+        if cancelled:
+            plugins.FAULT_CLASS[0] = plugins.PluginCancelled
     rig = Rig(custom={}, host_dir=wd, plugins=insts)
     rig.install([line_trigger(i, base, ln, args, w, m) for i, ln, args, w, m in tps])
     res, exc = rig.run(mod.drive)
@@ -253,10 +255,14 @@ def case_isolation(seed, out, spec, wd):
                 counts[cb] = counts.get(cb, 0) + 1
     injected = 0
     for fault in faults:
-        bad = run_scenario(wd, base, marks, plist, tps, mod, fault)
+        # (every third failure has the shape of asyncio.CancelledError, which is not an Exception subclass)
+        cancelled = injected % 3 == 2
+        bad = run_scenario(wd, base, marks, plist, tps, mod, fault, cancelled)
+        if cancelled:
+            out.count('faults_that_are_not_exception_subclasses')
         injected += 1
         out.distinct('callbacks_covered', fault[1])
-        witness = {'plugins': plist, 'fault': fault, 'agent_log': [short(x, 200) for x in bad['agent_log']]}
+        witness = {'plugins': plist, 'fault': fault, 'fault_class': 'BaseException' if cancelled else 'Exception', 'agent_log': [short(x, 200) for x in bad['agent_log']]}
         if bad['escapes'] or bad['exc'] or bad['result'] != good['result']:
             out.violation('isolation:fault-reached-host',
                           'plugin fault %s reached the application: outcome %r exc %r escape %s' % (
@@ -325,7 +331,8 @@ def case_e2e(seed, out, spec):
     nplug = r.randrange(2, 4)
     faulty = r.randrange(nplug)
     what = r.pick(['resource', 'shutdown', 'ctor', 'inactive', 'resource+shutdown'])
-    arg = {'nplug': nplug, 'faulty': faulty, 'what': what, 'first': r.chance(0.5)}
+    arg = {'nplug': nplug, 'faulty': faulty, 'what': what, 'first': r.chance(0.5),
+           'cancelled': int(str(seed).split(':')[-1]) % 2 == 1}   # every other session: failures that are not Exceptions
     res = e2e.call_child('vf.props.c20', 'child_e2e', arg, timeout=120)
     replay = replay_spec(spec, seed)
     if res.get('inconclusive'):
@@ -364,6 +371,8 @@ def child_e2e(arg):
     from deepproto.proto.tracepoint.v1.tracepoint_pb2 import TracePointConfig
     names = []
     cfg = {}
+    if arg.get('cancelled'):
+        plugins.FAULT_CLASS[0] = plugins.PluginCancelled
     for i in range(arg['nplug']):
         bad = i == arg['faulty']
         plugins.make('E2e%d' % i, ['res', 'dec'], order=(-5 if (bad and arg.get('first')) else i), attrs={'p%d' % i: 'v'},
